@@ -247,6 +247,53 @@ Definition client_of (a : action) : option nat :=
   | _ => None
   end.
 
+(* the client whose state an action reads or changes, if any *)
+Definition touches (a : action) : option nat :=
+  match a with
+  | Deliver c _ | Drop c _ | Tick c | WriteOK c | WriteErr c | Cancel c | SeeDone c | Exit c => Some c
+  | _ => None
+  end.
+
+(* ---- stalled clients and the handler at rest ----
+   A client is STALLED when its goroutine sits inside the response write (PBusy) and the write does
+   not return: the browser neither reads nor disconnects.  It is still connected and registered -
+   unlike a client that left (PGone), whose done channel lets its deliveries end.
+   Actions are split by who takes them:
+     environment : Subscribe (a new request), SendCall (the watcher calls Send), Tick (the timer),
+                   WriteOK / WriteErr (the network lets the write return), Cancel (the browser goes away)
+     handler     : everything the goroutines of sse.Handler do on their own. *)
+Definition stalledb (s : state) (c : nat) : bool := pc_eqb (cpc (cl s c)) PBusy.
+Definition handler_step (a : action) : bool :=
+  match a with
+  | SendLock _ | SendSpawn | SendUnlock | Deliver _ _ | Drop _ _ | SeeDone _ | Exit _ => true
+  | Subscribe | SendCall | Tick _ | WriteOK _ | WriteErr _ | Cancel _ => false
+  end.
+(* deliveries still pending for a client that is NOT stalled in a write: nothing but the handler
+   itself stands between them and their end (receive, or the client's leaving) *)
+Definition held_up (s : state) : list (nat * nat) :=
+  filter (fun q => negb (stalledb s (fst q))) (pending s).
+(* a client goroutine with a step of its own to take: leave the loop after a cancel, run the deferred function *)
+Definition client_restless (x : client) : bool :=
+  match cpc x with PExiting => true | PLoop => cancelled x | _ => false end.
+(* the handler is at rest: no Send call in progress, every pending delivery waits for a stalled
+   client, no client goroutine has a step of its own left.  By [stable_iff_handler_at_rest] this is
+   exactly "no handler step is enabled". *)
+Definition stableb (s : state) : bool :=
+  match holder s, waiting s, held_up s with
+  | None, [], [] => negb (existsb (fun c => client_restless (cl s c)) (seq 0 (next_id s)))
+  | _, _, _ => false
+  end.
+
+(* an upper bound on the number of steps the handler's goroutines can take without the environment
+   moving: one per pending delivery, two per iteration of the Send loop in progress, 2|registry|+4 per
+   Send call waiting for the mutex, two per client in its select (leave the loop, deferred function),
+   one per client about to run its deferred function *)
+Definition count_pc (p : pc) (f : nat -> client) (n : nat) : nat :=
+  length (filter (fun k => pc_eqb (cpc (f k)) p) (seq 0 n)).
+Definition rest_bound (s : state) : nat :=
+  length (pending s) + 2 * hold_work s + length (waiting s) * (2 * length (registered s) + 4)
+  + 2 * count_pc PLoop (cl s) (next_id s) + count_pc PExiting (cl s) (next_id s).
+
 (* ---- observation monitor (acceptor) used by the correspondence harness ----
    The harness records what it can see of the real handler, in real-time order:
      OSub c            ServeHTTP called for the c-th client (the harness subscribes one client at a time)
@@ -256,11 +303,14 @@ Definition client_of (a : action) : option nat :=
      OExited c         ServeHTTP returned for client c
      OSend e           the harness called Send for event e (and it returned: OSendEnd)
      ORegCount n       len(Handler.requests) read through the verif hook at a quiescent point
+     OSettled          the harness has given the handler time to act and saw it come to rest, while
+                       every writer it keeps stalled stayed stalled (no model action; [audit] judges the
+                       state reached here with [stableb])
    [expand] turns one observation into the model actions that must have happened since the
    previous one; [monitor] executes them, so an accepted history is a model execution. *)
 Inductive obs :=
 | OSub (c : nat) | OWrite (c e : nat) | ORelease (c : nat) (ok : bool) | OCancel (c : nat)
-| OExited (c : nat) | OSend (e : nat) | OSendEnd (e : nat) | ORegCount (n : nat).
+| OExited (c : nat) | OSend (e : nat) | OSendEnd (e : nat) | ORegCount (n : nat) | OSettled.
 
 Definition pending_of (c : nat) (p : list (nat * nat)) : list nat :=
   map snd (filter (fun q => fst q =? c) p).
@@ -282,6 +332,7 @@ Definition expand (s : state) (o : obs) : option (list action) :=
       else None
   | OSendEnd e => if mem_nat e (returned s) then Some [] else None
   | ORegCount n => if length (registered s) =? n then Some [] else None
+  | OSettled => Some []
   end.
 
 (* result: the state reached, or the index of the first observation the model cannot follow *)
@@ -295,6 +346,23 @@ Fixpoint monitor (s : state) (i : nat) (h : list obs) : state + nat :=
           match exec false s acts with
           | None => inr i
           | Some s' => monitor s' (S i) r
+          end
+      end
+  end.
+
+(* the states the accepted history passes through at its OSettled observations, with their index:
+   the harness evaluates [stableb] / [held_up] on each of them *)
+Fixpoint audit (s : state) (i : nat) (h : list obs) : list (nat * state) :=
+  match h with
+  | [] => []
+  | o :: r =>
+      match expand s o with
+      | None => []
+      | Some acts =>
+          match exec false s acts with
+          | None => []
+          | Some s' =>
+              match o with OSettled => [(i, s')] | _ => [] end ++ audit s' (S i) r
           end
       end
   end.
